@@ -326,16 +326,32 @@ def gen_mibcopy(rng, tier):
             f_['tail'] = 'comment'
     seen = set()
     files = [f for f in files if not (f['path'] in seen or seen.add(f['path']))]
+    index_dir = None
+    if rng.random() < 0.15:
+        # one source directory carries an .index file (module name -> file name); its files have names unrelated to
+        # the modules they hold, so the index is the only way a reader finds them by module name
+        dirs = sorted(set(os.path.dirname(f['path']) for f in files if f.get('module') and not f.get('broken')))
+        if dirs:
+            index_dir = rng.choice(dirs)
+            k2 = 0
+            for f_ in files:
+                if os.path.dirname(f_['path']) == index_dir and not f_.get('garbage'):
+                    k2 += 1
+                    f_['path'] = (index_dir + '/' if index_dir else '') + 'idx%d.dat' % k2
     dest = {}
     if rng.random() < 0.5:
         for m in names:
             if rng.random() < 0.5:
-                dest[m] = {'rev': rng.choice(REVS + [None]), 'tag': 'dest'}
+                dest[m] = {'rev': rng.choice(REVS + [None]), 'tag': rng.choice(['dest', 'd0'])}
     scn = {'tool': 'mibcopy', 'files': files, 'dest': dest, 'orders': [rng.randrange(1 << 30) for _ in range(3)], 'flags': rng.choice([[], [], ['--verbose'], ['--quiet'], ['--ignore-errors']])}
     if rng.random() < 0.12:
         scn['rate'] = {'p': 0.3, 'seed': rng.randrange(1 << 30), 'sites': ['shutil.copy'], 'actions': ['errno']}
     if rng.random() < 0.03:
         scn['usage'] = True
+    if index_dir is not None:
+        scn['index_dir'] = index_dir
+    if rng.random() < 0.2:
+        scn['normalised_mtime'] = True        # every file stamped 1980-01-01 (reproducible archives, image layers)
     return scn
 
 
@@ -390,11 +406,23 @@ def run_mibcopy(scn):
                     contents[fdesc['path']] = txt
                     with open(p, 'w') as f:
                         f.write(txt)
+                if scn.get('index_dir') is not None:
+                    seen_m = set()
+                    with open(os.path.join(src, scn['index_dir'], '.index'), 'w') as f:
+                        for fdesc in scn['files']:
+                            if os.path.dirname(fdesc['path']) == scn['index_dir'] and fdesc.get('module') and not fdesc.get('broken') and fdesc['module'] not in seen_m:
+                                seen_m.add(fdesc['module'])
+                                f.write('%s %s\n' % (fdesc['module'], os.path.basename(fdesc['path'])))
                 if scn['dest']:
                     os.makedirs(dst)
                     for m, dsc in sorted(scn['dest'].items()):
                         with open(os.path.join(dst, m), 'w') as f:
                             f.write(mod_text(m, dsc['rev'], dsc['tag']))
+                if scn.get('normalised_mtime'):
+                    for top in (src, dst):
+                        for dp, dn, fns in core.R.walk(top):
+                            for fn in fns:
+                                os.utime(os.path.join(dp, fn), (315532800, 315532800))
             argv = ['--mib-source=file://' + base] + list(scn['flags']) + [src, dst]
             if scn.get('usage'):
                 argv = ['--mib-source=file://' + base, src]
@@ -492,6 +520,11 @@ def shrink(scn):
         s = copy.deepcopy(scn)
         s.pop('faults')
         yield s
+    for k in ('index_dir', 'normalised_mtime'):
+        if k in scn:
+            s = copy.deepcopy(scn)
+            s.pop(k)
+            yield s
     if scn['tool'] == 'mibdump':
         for i in range(len(scn['flags'])):
             s = copy.deepcopy(scn)
